@@ -26,6 +26,12 @@ class SourceFile:
         if self._source is None or enforce_formatting():
             return text
         else:
+            # a leading dummy statement prevents the formatter from treating
+            # a lone string as module docstring (which would change its value)
+            prefix = "0\n"
+            result = format_code(prefix + text, Path(self._source.filename))
+            if result.startswith(prefix):
+                return result[len(prefix) :]
             return format_code(text, Path(self._source.filename))
 
     def asttokens(self):
